@@ -44,6 +44,7 @@ class BodyAn:
         self._succ = {}
         self._dom = {}
         self._defs = None
+        self._fdefs = None
         self._uses = None
         self._init = None
         self._res_cache = {}
@@ -196,6 +197,17 @@ class BodyAn:
                     pass
             self._defs = d
         return self._defs.get(local, [])
+
+    def field_defs(self, local):
+        """{field selector: [assign statements `_local.sel = ..`]} for a local written field by field"""
+        if self._fdefs is None:
+            d = {}
+            for blk in self.b.blocks:
+                for s in blk.stmts:
+                    if s.kind == 'assign' and len(s.place.proj) == 1 and s.place.proj[0].startswith('.'):
+                        d.setdefault(s.place.local, {}).setdefault(s.place.proj[0][1:], []).append(s)
+            self._fdefs = d
+        return self._fdefs.get(local, {})
 
     def single_def(self, local):
         d = self.defs(local)
@@ -673,6 +685,15 @@ def sources(an, op, extra_through=(), limit=400, deep=False):
             continue
         seen.add(key)
         if sel is not None:
+            # a local whose fields are assigned one by one (the environment of an inlined async helper: `_e.k = arg`)
+            fdefs = an.field_defs(l).get(sel)
+            if fdefs and not an.defs(l):
+                for st_ in fdefs:
+                    for x in st_.rv.ops:
+                        work.append(x)
+                    if st_.rv.kind in ('ref', 'copyderef', 'rawptr', 'discr'):
+                        work.append(Operand({'c': {'l': st_.rv.place.local, 'pr': list(st_.rv.place.proj), 'own': list(st_.rv.place.own)}}))
+                continue
             ds = an.defs(l)
             if ds and all(d[0] == 'stmt' and d[3].rv.kind == 'agg' and d[3].rv.j['ak'] in ('tuple', 'adt', 'closure') for d in ds):
                 done = True
